@@ -13,7 +13,7 @@
 namespace vf {
 using namespace asmjit;
 
-enum Kind : uint8_t { K_NONE, K_GP8, K_GP16, K_GP32, K_GP64, K_MM, K_XMM, K_YMM, K_ZMM, K_KREG, K_MEM, K_IMM, K_VMEM /* VSIB memory: size = 1 xmm, 2 ymm, 3 zmm index */ };
+enum Kind : uint8_t { K_NONE, K_GP8, K_GP16, K_GP32, K_GP64, K_MM, K_XMM, K_YMM, K_ZMM, K_KREG, K_MEM, K_IMM, K_VMEM /* VSIB memory: size = 1 xmm, 2 ymm, 3 zmm index */, K_ST /* x87 stack register */ };
 enum Role : uint8_t { R_NONE, R_REG, R_RM, R_VVVV, R_IS4, R_OPREG, R_IMM };
 enum Enc : uint8_t { E_LEGACY, E_VEX, E_EVEX, E_XOP };
 enum : uint8_t { F_K = 1, F_Z = 2, F_NOABS_ACC = 4, F_PREFER_EVEX = 8 };
@@ -36,7 +36,7 @@ struct Form {
 };
 
 // ---- what was handed to the assembler
-struct MemX { bool has_base, has_index, rip, addr32, addr16, vsib; uint32_t base, index, shift, seg; int32_t disp; };
+struct MemX { bool has_base, has_index, rip, addr32, addr16, vsib, abs_u32; uint32_t base, index, shift, seg; int32_t disp; };
 struct Given {
   uint32_t reg_enc[4];   // encoding id of a register operand (AH..BH already mapped to 4..7)
   bool gp8_hi[4], gp8_needs_rex[4];
@@ -158,6 +158,9 @@ static bool matches(const Form& f, const Dec& d, const Given& g, bool x64) {
     CHK(d.pF3 == (f.pp == 2) && d.pF2 == (f.pp == 3));
     CHK(!d.pF0);
     bool wantW = f.osize == 8 || f.w == 1;
+    // lea r64, [abs u32]: the zero-extended address is produced by a 32-bit lea (no REX.W, no 67h) - same result in the 64-bit register
+    bool lea_zx = f.inst == x86::Inst::kIdLea && mem_present && g.mem.abs_u32 && wantW;
+    if (lea_zx) wantW = false;
     CHK(d.W == (wantW ? 1u : 0u));
     if (!x64) CHK(!d.has_rex);
     if ((d.opcode & (f.digit == -1 && !f.has_modrm ? 0xF8 : 0xFF)) != (f.opcode & (f.digit == -1 && !f.has_modrm ? 0xF8 : 0xFF))) ok = false;
@@ -198,7 +201,7 @@ static bool matches(const Form& f, const Dec& d, const Given& g, bool x64) {
       }
       case R_VVVV: { vvvv_used = true; CHK((d.vvvv | ((g.mem_index >= 0 && g.mem.vsib && f.enc == E_EVEX) ? 0u : (d.V2 << 4))) == id); break; }
       case R_IS4: { CHK((d.is4 >> 4) == id && (x64 || !(d.is4 & 0x80))); break; }
-      case R_OPREG: { CHK(((d.opcode & 7) | (d.B << 3)) == id); CHK(d.X == 0 && d.R == 0); break; }
+      case R_OPREG: { CHK(((d.opcode & 7) | (d.B << 3)) == id); CHK(d.X == 0 && d.R == 0); if (op.kind == K_ST) CHK(!d.has_rex); break; }
       default: break;
     }
     if (op.fixed >= 0) {
@@ -218,7 +221,8 @@ static bool matches(const Form& f, const Dec& d, const Given& g, bool x64) {
     uint32_t mod = d.modrm >> 6, rm = d.modrm & 7;
     CHK(mod != 3);
     CHK(d.seg == m.seg);
-    CHK(d.p67 == (x64 ? m.addr32 : m.addr16));
+    bool lea_zx_m = f.inst == x86::Inst::kIdLea && m.abs_u32;   // any lea: the low 32 bits of the sign-extended address are the zero-extended address
+    CHK(d.p67 == (x64 ? (m.addr32 && !lea_zx_m) : m.addr16));
     bool dbase, dindex = false, drip = false; uint32_t base = 0, index = 0, scale = 0;
     if (!x64 && d.p67) {   // 16-bit ModRM table (SDM Vol.2 table 2-1): bx=3 bp=5 si=6 di=7
       static const uint8_t kBase[8] = { 3, 3, 5, 5, 6, 7, 5, 3 }; static const uint8_t kIndex[8] = { 6, 7, 6, 7, 0xFF, 0xFF, 0xFF, 0xFF };
@@ -285,6 +289,7 @@ static void build_operands(const Form* forms, uint32_t nforms, int evex_split, O
       case K_YMM: { uint32_t id = pick(X64 ? (evex ? 31 : 15) : 7); o[k] = x86::ymm(id); g.reg_enc[k] = id; break; }
       case K_ZMM: { uint32_t id = pick(X64 ? 31 : 7); o[k] = x86::zmm(id); g.reg_enc[k] = id; break; }
       case K_KREG: { uint32_t id = pick(7); o[k] = x86::k(id); g.reg_enc[k] = id; break; }
+      case K_ST: { uint32_t id = pick(7); o[k] = x86::st(id); g.reg_enc[k] = id; break; }
       case K_VMEM: {   // VSIB: [base + vector index * scale + disp32] or [vector index * scale + disp32]
         MemX& m = g.mem; g.mem_index = int(k); m.vsib = true; m.has_index = true;
         m.disp = int32_t(nondet_u32()); m.seg = pick(7); V_ASSUME(m.seg <= 6);
@@ -300,7 +305,7 @@ static void build_operands(const Form* forms, uint32_t nforms, int evex_split, O
       }
       case K_MEM: {
         MemX& m = g.mem; g.mem_index = int(k);
-        uint32_t shape = pick(7); V_ASSUME(shape <= 4);
+        uint32_t shape = pick(7); V_ASSUME(shape <= 5);
         m.disp = int32_t(nondet_u32()); m.seg = pick(7); V_ASSUME(m.seg <= 6);
         m.addr32 = X64 ? nondet_bool() : false;
         uint32_t b = pick(X64 ? 15 : 7), x = pick(X64 ? 15 : 7), sh = pick(3);
@@ -320,6 +325,11 @@ static void build_operands(const Form* forms, uint32_t nforms, int evex_split, O
           m.has_base = true; m.base = kBase[rm16];
           if (kIndex[rm16] != 0xFF) { m.has_index = true; m.index = kIndex[rm16]; m.shift = 0; mem = x86::ptr(x86::gpw(m.base), x86::gpw(m.index), 0, m.disp); }
           else mem = x86::ptr(x86::gpw(m.base), m.disp);
+        }
+        else if (shape == 5) {   // 64-bit mode: absolute address 0x80000000..0xFFFFFFFF (zero-extended 32 bits): needs 67h, or for LEA a 32-bit operand size
+          V_ASSUME(X64 && m.disp < 0);
+          m.abs_u32 = true; m.addr32 = true;
+          mem = x86::ptr(uint64_t(uint32_t(m.disp))); mem.set_addr_type(x86::Mem::AddrType::kAbs);
         }
         else if (shape == 2) { m.addr32 = false; mem = x86::ptr(X64 ? uint64_t(int64_t(m.disp)) : uint64_t(uint32_t(m.disp))); if (X64) mem.set_addr_type(x86::Mem::AddrType::kAbs); }
         else { V_ASSUME(X64); m.addr32 = false; m.rip = true; mem = x86::ptr(x86::rip, m.disp); }
